@@ -82,8 +82,8 @@ func c13FreeReal(raw json.RawMessage) any {
 		case err := <-done:
 			run.Done = true
 			run.Ret = c13RetString(err)
-		case <-time.After(5 * time.Second):
-			run.Stuck = "free-running walk did not return within 5s"
+		case <-time.After(20 * time.Second):
+			run.Stuck = "free-running walk did not return within 20s"
 		}
 		c13Finalize(s, run)
 		out.Runs = append(out.Runs, run)
@@ -176,8 +176,8 @@ func c13ProjReal(raw json.RawMessage) any {
 		}()
 		select {
 		case err = <-done:
-		case <-time.After(5 * time.Second):
-			return map[string]any{"hang": "InDependencyOrder did not return within 5s"}
+		case <-time.After(20 * time.Second):
+			return map[string]any{"hang": "InDependencyOrder did not return within 20s"}
 		}
 	}
 	after, _ := json.Marshal(p)
@@ -199,13 +199,105 @@ func c13ProjReal(raw json.RawMessage) any {
 	return map[string]any{"class": c13ErrClass(err), "visits": visits, "modified": string(before) != string(after), "changed": changed}
 }
 
+// names ↦ numbers for the Lean model; projects too large for an enumeration of all iteration orders are skipped
+func c13ProjNames(a c13ProjArgs) map[string]int {
+	names := map[string]int{}
+	id := func(n string) {
+		if _, ok := names[n]; !ok {
+			names[n] = len(names)
+		}
+	}
+	for _, s := range a.Services {
+		id(s.Name)
+	}
+	for _, s := range a.Services {
+		for _, d := range s.Deps {
+			id(d.D)
+		}
+	}
+	for _, d := range a.Disabled {
+		id(d)
+	}
+	return names
+}
+
+func c13ProjSmall(a c13ProjArgs) bool {
+	if len(a.Services) > 3 {
+		return false
+	}
+	for _, s := range a.Services {
+		if len(s.Deps) > 3 {
+			return false
+		}
+	}
+	return true
+}
+
+func c13ProjDriverArgs(args, _ json.RawMessage) any {
+	var a c13ProjArgs
+	json.Unmarshal(args, &a)
+	if !c13ProjSmall(a) {
+		return map[string]any{"services": []any{}}
+	}
+	names := c13ProjNames(a)
+	svcs := []any{}
+	for _, s := range a.Services {
+		deps := [][]any{}
+		for _, d := range s.Deps {
+			deps = append(deps, []any{names[d.D], d.Req})
+		}
+		svcs = append(svcs, map[string]any{"name": names[s.Name], "deps": deps})
+	}
+	dis := []int{}
+	for _, d := range a.Disabled {
+		dis = append(dis, names[d])
+	}
+	return map[string]any{"services": svcs, "disabled": dis}
+}
+
 // the specification side, computed on the arguments only
-func c13ProjJudge(args, real, _ json.RawMessage) *core.Verdict {
+func c13ProjJudge(args, real, drv json.RawMessage) *core.Verdict {
 	if v := core.CrashVerdict(real); v != nil {
 		return v
 	}
 	var a c13ProjArgs
 	json.Unmarshal(args, &a)
+	// correspondence with Model/DepGraph.lean (collect mode: the real outcome must be reachable under some iteration order)
+	if c13ProjSmall(a) {
+		var r struct {
+			Class   string   `json:"class"`
+			Changed []string `json:"changed"`
+		}
+		json.Unmarshal(real, &r)
+		names := c13ProjNames(a)
+		var ch []int
+		for _, c := range r.Changed {
+			ch = append(ch, names[c])
+		}
+		sort.Ints(ch)
+		var parts []string
+		for _, c := range ch {
+			parts = append(parts, fmt.Sprint(c))
+		}
+		got := r.Class + ":" + strings.Join(parts, " ")
+		var outs []string
+		if err := json.Unmarshal(drv, &outs); err != nil {
+			return core.Disagree("malformed trav.newgraph answer: " + string(drv))
+		}
+		found := false
+		for _, o := range outs {
+			if o == got {
+				found = true
+			}
+		}
+		if !found {
+			return core.Disagree(fmt.Sprintf("real outcome %q is not among the model's outcomes %v", got, outs))
+		}
+	}
+	return c13ProjSpec(a, real)
+}
+
+func c13ProjSpec(a c13ProjArgs, real json.RawMessage) *core.Verdict {
 	var r struct {
 		Class    string   `json:"class"`
 		Visits   []string `json:"visits"`
@@ -301,6 +393,6 @@ func c13ProjJudge(args, real, _ json.RawMessage) *core.Verdict {
 }
 
 func init() {
-	core.Register("trav.free", &core.CheckDef{Real: c13FreeReal, Judge: c13OracleJudge, Timeout: 60 * time.Second})
-	core.Register("trav.proj", &core.CheckDef{Real: c13ProjReal, Judge: c13ProjJudge, Timeout: 20 * time.Second})
+	core.Register("trav.free", &core.CheckDef{Real: c13FreeReal, Judge: c13OracleJudge, Timeout: 120 * time.Second})
+	core.Register("trav.proj", &core.CheckDef{Real: c13ProjReal, DriverOp: "trav.newgraph", DriverArgs: c13ProjDriverArgs, Judge: c13ProjJudge, Timeout: 60 * time.Second})
 }
